@@ -413,7 +413,9 @@ def circuit_method(I, recv, o, name, args, kwargs, e, fr):
             I.mutate(o, "compose(inplace=True)", e)
             o.term = new if not I.weak(o) else t_seq(o.term, t_star(ot))
             return Const(None)
-        return I.new_circuit(new, site=where(fr, e), width=o.width)
+        res = I.new_circuit(new, site=where(fr, e), width=o.width)
+        I.events.append(("compose", o.oid, oo.oid if oo is not None else None, vkey(q), res.oid, where(fr, e)))
+        return res
     if name == "inverse":
         return I.new_circuit(t_inv(o.term), site=where(fr, e), width=o.width)
     if name == "copy":
